@@ -146,11 +146,20 @@ func (te *TimerEntry) run(ctx context.Context) error {
 	t := time.NewTimer(te.At.Sub(time.Now()))
 	select {
 	case <-t.C:
-		te.timers.c.Logf("Firing timer '%s'", te.Id)
-		te.timers.Emitter(ctx, te)
+		// Decide under the lock whether this timer still
+		// stands: a cancellation that got in first wins (even
+		// if both cases of the select were ready), and a timer
+		// made later under the same id is a different entry
+		// that we must not remove.
 		te.timers.Lock()
+		if current, have := te.timers.Map[te.Id]; !have || current != te {
+			te.timers.Unlock()
+			return nil
+		}
 		delete(te.timers.Map, te.Id)
 		te.timers.Unlock()
+		te.timers.c.Logf("Firing timer '%s'", te.Id)
+		te.timers.Emitter(ctx, te)
 		te.timers.c.Lock()
 		te.timers.changed()
 		te.timers.c.Unlock()
